@@ -131,8 +131,60 @@ except Exception as e:
 sys.exit(0 if np.allclose(want, got) else 1)
 '''
 
+CONTAINERS = '''
+import sys
+import numpy as np
+import onnx_ir as ir
+from onnxscript import nn
+from onnxscript._internal import builder
+class Leaf(nn.Module):
+    def __init__(self, name=None):
+        super().__init__(name)
+        self.w = nn.Parameter([2], data=ir.tensor(np.ones(2, np.float32)))
+    def forward(self, op, x):
+        return op.Add(x, self.w)
+class Plain(nn.Module):
+    def forward(self, op, x):
+        return op.Relu(x)
+bad = 0
+for container in ("Sequential", "ModuleList"):
+    for order in ("constructor", "append after attach", "append before attach"):
+        for leaf_name in (None, "fc_custom"):
+            class Root(nn.Module):
+                def __init__(self):
+                    super().__init__("model")
+                    mk = (lambda ms: nn.Sequential(*ms)) if container == "Sequential" else (lambda ms: nn.ModuleList(ms))
+                    if order == "constructor":
+                        self.seq = mk([Plain(), Leaf(name=leaf_name)])
+                    elif order == "append after attach":
+                        self.seq = mk([Plain()])
+                        self.seq.append(Leaf(name=leaf_name))
+                    else:
+                        s = mk([Plain()])
+                        s.append(Leaf(name=leaf_name))
+                        self.seq = s
+                def forward(self, op, x):
+                    if container == "Sequential":
+                        return self.seq(op, x)
+                    for m in self.seq:
+                        x = m(op, x)
+                    return x
+            root = Root()
+            x = ir.Value(name="x", shape=ir.Shape([2]), type=ir.TensorType(ir.DataType.FLOAT))
+            g = ir.Graph([x], [], nodes=[], opset_imports={"": 18}, name="g")
+            root(builder.GraphBuilder(g).op, x)
+            want = sorted("model." + k for k in root.state_dict())
+            if sorted(g.initializers) != want:
+                print(f"{container}, {order}, child name {leaf_name!r}: initializers {sorted(g.initializers)} but state_dict keys {sorted(root.state_dict())}")
+                bad += 1
+sys.exit(1 if bad else 0)
+'''
+
+
 def replay(ob):
     n = ob["name"]
+    if "C18.nn.sequential." in n or "C18.nn.module_list." in n:
+        return CONTAINERS
     if "call_inline.operands_are_promoted" in n:
         return INLINE_LITERAL
     if "module_called_in_a_subgraph_body" in n:
